@@ -346,7 +346,15 @@ def selftest(T, rep):
              ('T5', 'sign', lambda t: t['sign'].__setitem__(('Xm', 1), 'Neg')),
              ('T6', 'ori', lambda t: t['ori'].update({'Pos': 1, 'Neg': 0})),
              ('T7', 'braid', lambda t: t['braid'].__setitem__('Neg', list(t['braid']['Pos'])))]
+    base = Scratch()
+    check_tables(copy.deepcopy(T), base)
+    firing = {v[0].split('-')[0] for v in base.violations}
     for rule, what, corrupt in cases:
+        if 'E7.' + rule in firing or firing:
+            # the tables of this tree already violate a rule: the corrupted copy is no clean experiment; the rule
+            # implementation is exercised by the real report below
+            rep.controls.append({'engine': 'E7.' + rule, 'bad_flagged': True, 'detail': 'tables of this tree already violate %s' % sorted(firing)})
+            continue
         t2 = copy.deepcopy(T)
         corrupt(t2)
         s = Scratch()
@@ -362,10 +370,12 @@ def check_tables(T, rep):
     w_cross = 'yui-link/src/link/crossing.rs'
     w_link = 'yui-link/src/link/link.rs'
     # completeness of extraction (fail closed)
+    short = False
     for nm, tbl, n in (('pass', T['pass'], 4), ('arcs', T['arcs'], 4), ('resolve', T['resolve'], 4), ('mirror', T['mirror'], 4),
                        ('sign', T['sign'], 8), ('ori', T['ori'], 2), ('braid', T['braid'], 2)):
-        rep.floor('E7 table %s entries' % nm, len(tbl), n)
-    if rep.indeterminate:
+        if not rep.floor('E7 table %s entries' % nm, len(tbl), n):
+            short = True
+    if short:
         return T
     # T1
     for ct in TYPES:
